@@ -1017,13 +1017,16 @@ def prepare_queries(fc, names):
                 if p.kind in ('func', 'cls') and npos < p.bodytok:
                     in_header = True
                 p = p.parent
+            cls = ''
             if not in_header:
                 d = inner
                 while d is not None and d.kind not in ('func', 'cls'):
+                    if d.kind == 'lam' and d.parent is not None and d.parent.kind == 'cls':
+                        cls = '-lambda-in-class'
                     d = d.parent
                 expect = ([d.id] + def_chain(d)) if d is not None else [0]
             fc.queries.append((2, npos))
-            fc.qmeta.append(dict(expect=expect, lams=lams))
+            fc.qmeta.append(dict(expect=expect, lams=lams, cls=cls))
 
 
 # =============================================================================
